@@ -186,19 +186,37 @@ def grid_case(item):
         j = judge(obs, pos, amount, p, m, spread, feename, integer)
         if j is not None:
             viols.append({"rule": j[0], "expected": j[1], "observed": obs, "sig": sig_of(obs, pos, amount, p, m, spread, feename, integer), "point": [p, m, spread, feename, integer, pos, amount]})
-    # the next date: same price, another spread - the same requests are sized again on the same tree
+    # the next date: same price, another spread.  The same request is made on both dates with
+    # nothing in between (no reset, no other trade): whatever the first call left behind must not
+    # influence the second
     if spread is not None and p == p and p != 0.0:
         s2 = spread2(spread)
-        try:
-            root.update(root.data.index[2])
-            for amount in ams[::6]:
-                obs = evaluate(root, pos, amount, p, m, s2, feename, integer)
+        for amount in ams[3::12]:
+            try:
+                r3, _ = _tree(p, m, spread, feename, integer)
+                sec = r3["x"]
+                _reset(r3, pos)
+                try:
+                    r3.allocate(amount, child="x")
+                    r3.update(r3.now)
+                except Exception:
+                    continue  # (the first call is judged on the second date above)
+                r3.update(r3.data.index[2])
+                pos_b = float(sec.position)
+                c0 = r3.capital
+                v0 = sec.value
+                try:
+                    r3.allocate(amount, child="x")
+                    r3.update(r3.now)
+                    obs = {"q": sec.position - pos_b, "spent": c0 - r3.capital, "pos1": sec.position, "value0": v0}
+                except Exception as e:
+                    obs = {"raised": rt.guard_id(e) or ("crash:" + rt.describe(e))}
                 n += 1
-                j = judge(obs, pos, amount, p, m, s2, feename, integer)
+                j = judge(obs, pos_b, amount, p, m, s2, feename, integer)
                 if j is not None:
-                    viols.append({"rule": j[0], "expected": j[1], "observed": obs, "sig": "d3|" + sig_of(obs, pos, amount, p, m, s2, feename, integer), "point": [p, m, spread, feename, integer, pos, amount, "date3"]})
-        except Exception as e:
-            viols.append({"rule": "crash", "observed": rt.describe(e), "point": [p, m, spread, feename, integer, pos, None, "date3"]})
+                    viols.append({"rule": j[0], "expected": j[1], "observed": obs, "sig": "d3|" + sig_of(obs, pos_b, amount, p, m, s2, feename, integer), "point": [p, m, spread, feename, integer, pos, amount, "date3"]})
+            except Exception as e:
+                viols.append({"rule": "crash", "observed": rt.describe(e), "point": [p, m, spread, feename, integer, pos, amount, "date3"]})
     return (n, nontrivial, viols, indomain)
 
 
@@ -209,11 +227,23 @@ def replay(case):
         p = float("nan")
     root, spy = _tree(p, m, spread, feename, integer, p_prev=1.0 if (p != p or p == 0.0) else None)
     if len(pt) > 7:
-        # third date: the same request was sized on the second date first
-        evaluate(root, pos, amount, p, m, spread, feename, integer)
+        # third date: the same request was made on the second date first, nothing in between
+        sec = root["x"]
+        _reset(root, pos)
+        root.allocate(amount, child="x")
+        root.update(root.now)
         root.update(root.data.index[2])
         spread = spread2(spread)
-    obs = evaluate(root, pos, amount, p, m, spread, feename, integer)
+        pos = float(sec.position)
+        c0, v0 = root.capital, sec.value
+        try:
+            root.allocate(amount, child="x")
+            root.update(root.now)
+            obs = {"q": sec.position - pos, "spent": c0 - root.capital, "pos1": sec.position, "value0": v0}
+        except Exception as e:
+            obs = {"raised": rt.guard_id(e) or ("crash:" + rt.describe(e))}
+    else:
+        obs = evaluate(root, pos, amount, p, m, spread, feename, integer)
     j = judge(obs, pos, amount, p, m, spread, feename, integer)
     if j is None:
         return []
@@ -226,7 +256,7 @@ def _k1(v):
     trades nothing (the stated rule wants one unit sold); matches only that exact outcome"""
     p, m, spread, feename, integer, pos, amount = v["case"]["point"][:7]
     if len(v["case"]["point"]) > 7:
-        spread = spread2(spread)
+        return False  # second call on the third date: position is not the grid's
     obs = v["observed"]
     if not integer or "raised" in obs or v.get("rule") != "largest_affordable":
         return False
